@@ -25,6 +25,7 @@ SETTINGS_KINDS = [
     "sdmxg",
     "sdmx1",
     "sdmxg1",
+    "sdmxfull",
     "nldf_j_sdmx",
 ]
 
@@ -97,6 +98,16 @@ def make_settings(kind, rng, normalizer=True):
         sdmx = S.SDMX1Settings([0, 1], 1)
     elif kind == "sdmxg1":
         sdmx = S.SDMXG1Settings([0, 1], 1, 1)
+    elif kind == "sdmxfull":
+        # the ratio dictionary is deliberately given in non-ascending key order
+        d = rng.choice(
+            [
+                {2.0: ([0, 1], [2, 1, 1, 0]), 1.0: ([0, 1], [2, 0, 0, 0])},
+                {1.5: ([1], [1, 1, 0, 0]), 1.0: ([0, 1, 2], [3, 1, 1, 1]), 2.0: ([0], [1, 0, 0, 0])},
+                {1.0: ([0, 1], [2, 1, 0, 0])},
+            ]
+        )
+        sdmx = S.SDMXFullSettings(dict(d))
     st = S.FeatureSettings(sl_settings=sl, nldf_settings=nldf, sdmx_settings=sdmx)
     if normalizer:
         try:
